@@ -18,6 +18,7 @@ import Flax.Model.NnxLoop
 import Flax.Proofs.NnxLoopVmapTop
 import Flax.Proofs.NnxLoopReject
 import Flax.Proofs.NnxLoopGrad
+import Flax.Proofs.NnxLoopScanLoop
 import Flax.Proofs.LiftLoopAxes
 import Flax.Proofs.LiftLoopArr
 import Flax.Props.C14
@@ -142,8 +143,9 @@ theorem vmap_call_sees_slices {α : Type} [Inhabited α] (store : Store α) (i :
 
 /-- **`vmap_eq_per_index`.**  For every function, store, argument list (aliasing included), `in_axes` / `out_axes`
 (single entries or tuples of ints, `None`, `StateAxes` of arbitrary filters), `axis_size` and verdict of jax's
-unbatchedness check: whenever `nnx.vmap` returns, the per-index reference `vmapSpecN` is defined for the same `n ≥ 1`
-indices and returns the same final store and the same results.  `vmapSpecN`: index `i` is `f` on the per-Variable slices;
+unbatchedness check: whenever `nnx.vmap` returns, the per-index reference `vmapSpecN` is defined for `n ≥ 1` indices
+— `n` being the size of *every* mapped Variable and mapped array argument along its axis, and `axis_size` if given —
+and returns the same final store and the same results.  `vmapSpecN`: index `i` is `f` on the per-Variable slices;
 afterwards every Variable with an axis holds `jnp.stack` of its per-index values along that axis, every `None`
 Variable the shared (index-0) value; array results are stacked along their out axis (`None`: the unbatched value), fresh
 graph nodes Variable by Variable under the out prefix's first matching filter.
@@ -160,6 +162,10 @@ theorem vmap_eq_per_index {α : Type} [Inhabited α] {inAxes outAxes : AxesSpec}
       ∀ k col, column k (calls.map (·.2)) = .ok col → OutColWF col) :
     ∃ ps n, inAxes.expand args.length = .ok ps ∧ 0 < n ∧ verdict = true ∧
       inAxes.hasCarry = false ∧ outAxes.hasCarry = false ∧
+      ((∀ ep ∈ ownedAll (ps.zip args) [], ∀ k, ep.2.at ep.1 = .ok (.axis k) →
+          ∃ v, store.lookup ep.1.id = some v ∧ Flax.LiftLoop.dimAt k v = .ok n) ∧
+        (∀ pa ∈ arrArgs (ps.zip args), ∀ k, pa.1 = .ax (.axis k) → Flax.LiftLoop.dimAt k pa.2 = .ok n) ∧
+        (∀ m, axisSize = some m → m = n)) ∧
       vmapSpecN n outAxes body (ps.zip args) store = .ok res :=
   nnxVmap_sound h hwf houts
 
@@ -289,6 +295,135 @@ theorem scan_carry_refs_checked {α : Type} (ca : CarryArg) (o : Option (Out α)
         · simp [hkj]
           intro h; exact hkj h.symm
 
+/-! ## 4b. `nnx.scan` = the Python loop -/
+
+/-- `moveaxis(x, axis, 0)` before the loop and the leading-axis slice inside it give `take(x, i, axis)`; stacking along 0
+and `moveaxis(x, 0, axis)` afterwards is stacking along `axis` — the two transposes are mutually inverse (C06
+`transpose_front_inverse`, here on the leaves `nnx.scan` moves) -/
+theorem scan_moveaxis_slice_stack {α : Type} [Inhabited α] (k : Int) :
+    (∀ (a F : Arr α) (i : Nat), Arr.toFront k a = .ok F → F.take 0 i = takeAt k i a) ∧
+    (∀ (sh : List Nat) (ls : List (Arr α)),
+      Flax.LiftLoop.opt (Flax.LiftLoop.stackFront k sh ls) = Flax.LiftLoop.opt (stackAt k sh ls)) :=
+  ⟨fun a F i h => Flax.LiftLoop.take_front_eq a F k h i, fun sh ls => Flax.LiftLoop.stackFront_opt k sh ls⟩
+
+/-- **What every iteration sees** (`_scan_split_in` → `lax.scan` slice → `_scan_merge_in`, three routes, three deques
+popped in argument order).  For every store, arguments with any aliasing, prefixes (ints, `None`, `Carry`, `StateAxes`),
+iteration index `i`, values `cur` left by the iteration processed before and array carry `carr`: the traced function is
+called on exactly one value per reachable Variable, in first-occurrence order — `take(original, i, axis)` for an axis,
+the *original* value for `None` (broadcast state is shared and constant), `cur`'s value for `Carry` — and on the array
+arguments sliced / carried / broadcast. -/
+theorem scan_iteration_sees {α : Type} [Inhabited α] (store cur : Store α) (i : Nat) (carr : Option (Arr α))
+    (pas : List (Prefix × Arg α)) (si : ScanIn α) (xs : List (SPure α))
+    (parts : List (Option (List (State α) × List (State α))))
+    (hwf : WFArgs pas) (hs : scanSplitIn store pas [] [] = .ok si) (hx : mapX (spureAt i) si.pure = .ok xs)
+    (hp : mapX (scanSplitArgOut cur) si.pure = .ok parts) :
+    ∃ ins arrs, mapX (scanEntryIn store cur i) (ownedAll pas []) = .ok ins ∧
+      mapX (scanArrIn carr i) (arrArgs pas) = .ok arrs ∧
+      scanMergeIn xs ((parts.filterMap id).map (·.2)) si.bcastDeque si.bcastArrays carr [] = .ok (ins, arrs) := by
+  obtain ⟨ins, arrs, h1, h2, h3⟩ :=
+    Flax.NnxLoop.scan_iteration_sees store cur i carr pas [] [] si xs parts [] hwf hs hx hp rfl
+  exact ⟨ins, arrs, h1, h2, by simpa using h3⟩
+
+/-- **The scan of `ScanFn` is the reference loop, in either direction** (induction on the list of indices in
+processing order, for `reverse = false` and `reverse = true`): carry Variables and the array carry threaded from the
+iteration processed before, axis Variables sliced at the index processed, broadcast Variables constant, the same final
+array carry, the final carry deque being the carry route of what the last iteration left, and record `i` of either
+side being the record of the iteration that processed index `i`. -/
+theorem scan_loop_threads_carry {α : Type} [Inhabited α] {body : Body α} {ca : CarryArg} {cout : CarryPos}
+    {outPs : List Prefix} {store : Store α} {pas : List (Prefix × Arg α)} {si : ScanIn α} (hwf : WFArgs pas)
+    (hsi : scanSplitIn store pas [] [] = .ok si) {n : Nat} {reverse : Bool} {cfin : ScanCarry α} {ys : List (ScanY α)}
+    (h : laxScanX n reverse (fun i => mapX (spureAt i) si.pure)
+      (scanFn body ca cout outPs si.bcastDeque si.bcastArrays) sameCarry (initCarryArr si.pure, si.carryDeque)
+      = .ok (cfin, ys)) :
+    ∃ fin recs, laxScanX n reverse (fun i => .ok i) (scanStepSpec body ca cout outPs store pas) (fun _ _ => true)
+        (initCarrySpec (arrArgs pas), store) = .ok (fin, recs) ∧
+      CarryInv si.pure cfin fin ∧ All2 (YRel si.pure outPs) recs ys :=
+  scan_loop_sim hwf hsi h
+
+/- Full statement aimed at (DESIGN.md `scan_eq_loop_nnx`):
+     whenever `nnxScan … = .ok res`, the reference `scanSpecN n reverse ca cout outPs body (ps.zip args) store` (Proofs/
+     NnxLoopSpec.lean: the loop above, then every axis Variable := stack by index of what the iterations left along its
+     axis, every carry Variable := what the last iteration left, every broadcast Variable := its original value, results
+     stacked by index along their out axes, the carry put back) returns the same `res`.
+   What is proved: everything up to and including the loop (`scan_loop_threads_carry`), i.e. same `n`, same order, every
+   call on the Python loop's values, carry threaded, broadcast constant, same final array carry, and the per-iteration
+   records of both sides related (`YRel`: the vectorised states `ScanFn` emitted are the vectorised route of the values the
+   iteration left; its results are the iteration's results after `to_tree`).
+   Missing: that `scanWriteBack` / `scanCollectOut` applied to related records compute `scanFinalEntry` / `collectOut`
+   (stack along 0 + `moveaxis(x, 0, axis)` per vectorised state, positional `popleft` of the three deques in
+   `_scan_merge_out`).  The leaf-level facts are there (`scan_moveaxis_slice_stack`, and the vmap analogue
+   `vmap_collect_lookup`); the positional bookkeeping between the j-th vectorised state and its filter group is not
+   done.  That part is tied to the code by the correspondence run only. -/
+theorem scan_eq_loop_nnx_partial {α : Type} [Inhabited α] {inAxes outAxes : AxesSpec} {length : Option Nat}
+    {reverse : Bool} {nOuts : Nat} {body : Body α} {args : List (Arg α)} {store : Store α}
+    {res : Store α × List (Out α)}
+    (h : nnxScan inAxes outAxes length reverse nOuts body args store = .ok res)
+    (hwf : ∀ ps, inAxes.expand args.length = .ok ps → WFArgs (ps.zip args)) :
+    ∃ cin cout ps si ca outPs n cfin ys fin recs outs,
+      scanSetup inAxes outAxes = .ok (cin, cout) ∧ inAxes.expand args.length = .ok ps ∧
+      scanSplitIn store (ps.zip args) [] [] = .ok si ∧ carryArgOf cin args = .ok ca ∧
+      outPrefixes outAxes cout nOuts = .ok outPs ∧ 0 < n ∧
+      laxScanX n reverse (fun i => .ok i) (scanStepSpec body ca cout outPs store (ps.zip args)) (fun _ _ => true)
+        (initCarrySpec (arrArgs (ps.zip args)), store) = .ok (fin, recs) ∧
+      CarryInv si.pure cfin fin ∧ All2 (YRel si.pure outPs) recs ys ∧
+      scanWriteBack (ys.map (·.1)) si.pure cfin.2 si.bcastDeque store = .ok res.1 ∧
+      insertCarry cout ca fin.1 outs = .ok res.2 :=
+  nnxScan_loop h hwf
+
+/-- broadcast state is constant: the step function of the reference loop reads `None` Variables from the original
+store only, whatever the previous iterations wrote (this is what the code does: `broadcast_deque_out =
+PytreeDeque(broadcast_deque)`; writes of the body to broadcast state are dropped — recorded finding) -/
+theorem scan_broadcast_reads_original {α : Type} [Inhabited α] (store cur cur' : Store α) (i : Nat) (id : VarId) :
+    scanValIn store cur i .bcast id = scanValIn store cur' i .bcast id := rfl
+
+/-- inconsistent aliasing is rejected by `nnx.scan` too: `_scan_split_in` runs the same check leaf by leaf, and only
+if all occurrences of every Variable agree does it return -/
+theorem scan_accepted_aliasing_is_consistent {α : Type} [Inhabited α] (store : Store α)
+    (pas : List (Prefix × Arg α)) (si : ScanIn α) (h : scanSplitIn store pas [] [] = .ok si) :
+    ∃ npF, allPrefixes pas [] = .ok npF ∧ ∀ x ∈ npF, ∀ y ∈ npF, x.1 = y.1 → x.2 = y.2 := by
+  have key : ∀ (pas : List (Prefix × Arg α)) (np : NodePrefixes) (seen : List VarId) (si : ScanIn α),
+      consistent np = true → scanSplitIn store pas np seen = .ok si →
+      ∃ npF, allPrefixes pas np = .ok npF ∧ consistent npF = true := by
+    intro pas
+    induction pas with
+    | nil => intro np seen si hc _; exact ⟨np, rfl, hc⟩
+    | cons pa rest ih =>
+      intro np seen si hc ht
+      obtain ⟨p, arg⟩ := pa
+      cases arg with
+      | arr a =>
+        obtain ⟨ax, r, _, hr, _⟩ := scanSplitIn_arr_ok ht
+        exact ih np seen r hc hr
+      | node es =>
+        obtain ⟨np', flat, sts, vec, car, bc, r, hca, _, _, _, hr, _⟩ := scanSplitIn_node_ok ht
+        obtain ⟨l, hl, hnp, hcons⟩ := checkAliasing_ok hca
+        obtain ⟨npF, h1, h2⟩ := ih np' _ r hcons hr
+        refine ⟨npF, ?_, h2⟩
+        simp only [allPrefixes, collect_eq, hl, ← hnp]
+        exact h1
+  obtain ⟨npF, h1, h2⟩ := key pas [] [] si rfl h
+  exact ⟨npF, h1, (consistent_iff npF).1 h2⟩
+
+/-! non-vacuity: a scan over 2 steps, `c ← c + w` with `c` carried (BatchStat under `Carry`) and `w` scanned along
+axis 0, reverse direction -/
+
+def exScanArgs : List (Arg Int) :=
+  [.node [⟨["c"], 1, ⟨["BatchStat", "Variable"], none⟩⟩, ⟨["w"], 0, ⟨["Param", "Variable"], none⟩⟩]]
+
+def exScanIn : AxesSpec := .perArg [.sa [(.ofType "Param", .axis 0), (.everything, .carry)]]
+
+def exScanBody : Body Int := fun st _ =>
+  match st with
+  | [(1, c), (0, w)] => .ok ([(1, exScalar (c.getD [] + w.getD [])), (0, w)], [.arr (exScalar (c.getD []))])
+  | _ => .error (.body "KeyError")
+
+example : exView (nnxScan exScanIn (.uniform (.ax (.axis 0))) none true 1 exScanBody exScanArgs exStore)
+    = some ([(0, exVec [10, 20]), (1, exScalar 33)], [some (exVec [23, 3])]) := by decide
+
+example : exView (scanSpecN 2 true .none .none [.ax (.axis 0)] exScanBody
+    ([Prefix.sa [(.ofType "Param", .axis 0), (.everything, .carry)]].zip exScanArgs) exStore)
+    = some ([(0, exVec [10, 20]), (1, exScalar 33)], [some (exVec [23, 3])]) := by decide
+
 /-! ## 5. `nnx.grad` / `nnx.value_and_grad`  (partial: A-AD) -/
 
 /-- **`grad_state_partition`, part 1: diff ⊎ nondiff.**  For `DiffState(i, f)` (a bare integer argnum is
@@ -335,6 +470,19 @@ theorem grad_value_aux_effects_once {α : Type} {ad : AD α} {argnums : List Dif
       r.aux = ga.aux ∧ gradWriteBack pure ga.argsOut store = .ok r.store ∧
       r.grads.map DIn.struct = dins.map DIn.struct :=
   nnxGrad_ok h
+
+/-- **part 2b: the forward pass is run on the caller's values, whatever is selected.**  `diff` (handed to jax) and
+`nondiff` (closed over by `GradFn`) are merged again inside: at the original values the traced function sees every
+reachable Variable once, in first-occurrence order, with the value the caller's object holds. -/
+theorem grad_forward_sees_caller_values {α : Type} [Inhabited α] (store : Store α)
+    (pas : List (Option NFilter × Arg α)) (res : List (GPure α) × List (Option (State α)))
+    (hwf : WFArgsG pas) (h : gradToTree store pas [] [] = .ok res) :
+    ∃ ins, mapX (fun (e : Entry) => match store.getX e.id with
+        | .ok v => Except.ok (e.id, v)
+        | .error err => .error err) (ownedEntries pas []) = .ok ins ∧
+      gradMergeAll res.1 res.2 [] = .ok ins := by
+  obtain ⟨ins, h1, h2⟩ := Flax.NnxLoop.grad_forward_sees_caller_values store pas [] [] res [] hwf h rfl
+  exact ⟨ins, h1, by simpa using h2⟩
 
 /-- **part 3 (A-AD made explicit).**  The function handed to `jax.value_and_grad` is `GradFn` with the differentiated
 leaves substituted; any function extensionally equal to it — in particular "the loss written as a function of the
